@@ -56,7 +56,8 @@ def code(chk, tier, d):
                 cases.append({'id': '%s:%s:%d' % (m, 'u' if form else 's', off), 'prog': prog, 'src': asmlib.src_of(prog)})
     # the same operands in other lexical surroundings: as the last characters of the file (no newline after the final digit), with a
     # comment starting right after the last digit, with tabs and several blanks in front, with leading zeros, and after a blank-less `-`
-    ctx = rng.sample(boundary, 60) if tier == "quick" else boundary
+    core = [0, 1, -1, 15, 16, -16, -17, 255, 256, -256, -257, 65535, 65536, -65536, 2 ** 31 - 1, -2 ** 31, -2 ** 31 + 1]
+    ctx = sorted(set(core + rng.sample(boundary, 45))) if tier == "quick" else boundary
     nctx = 0
     for m in sorted(asmlib.OPS):
         for form in (False, True):
@@ -74,6 +75,32 @@ def code(chk, tier, d):
                     nctx += 1
     chk.set("operands_in_other_lexical_surroundings", nctx)
     res = asmlib.run_cases(exe, cases, d, "c04")
+    # the EXECUTABLE, one fresh process per operand (what a tool carries over from one operand to the next cannot help or hide here):
+    # a single instruction per source
+    import corpus, subprocess, struct
+    hexasm = os.path.join(corpus.tools(), "hexasm")
+    wd = os.path.join(d, "fresh"); os.makedirs(wd, exist_ok=True)
+    nfresh = 0
+    for m in sorted(asmlib.OPS):
+        for form in (False, True):
+            for v in ctx:
+                prog = [dict(asmlib.imm(m, v), form=form)]
+                src = asmlib.src_of(prog)
+                open(os.path.join(wd, "one.S"), "w").write(src)
+                outb = os.path.join(wd, "one.bin")
+                if os.path.exists(outb):
+                    os.remove(outb)
+                p = subprocess.run([hexasm, "one.S", "-o", "one.bin"], cwd=wd, stdin=subprocess.DEVNULL, stdout=subprocess.PIPE, stderr=subprocess.PIPE, timeout=60)
+                nfresh += 1
+                c = {'id': 'fresh:%s:%s:%d' % (m, 'u' if form else 's', v), 'prog': prog, 'src': src}
+                if p.returncode != 0 or not os.path.exists(outb):
+                    r = {'status': 'error', 'diag': p.stderr.decode(errors='replace')[:200]}
+                else:
+                    b = open(outb, "rb").read()
+                    hdr = struct.unpack('<I', b[:4])[0] if len(b) >= 4 else 0
+                    r = {'status': 'ok', 'hdr': hdr, 'img': list(b[4:4 + 4 * hdr])}
+                cases.append(c); res.append(r)
+    chk.set("operands_assembled_in_a_fresh_process_each", nfresh)
     recs, keep = [], []
     nvals = 0
     for c, r in zip(cases, res):
